@@ -154,7 +154,7 @@ pendbar == [t \in Threads |->
     IF cur[t].op = "push"
     THEN [op |-> "push", us |-> <<cur[t].u>>, hd |-> cur[t].hd, done |-> PushDone(t), res |-> <<>>]
     ELSE IF cur[t].op = "pop"
-    THEN [op |-> "pop", k |-> 1, tl |-> cur[t].tl, done |-> PopDone(t),
+    THEN [op |-> "pop", k |-> 1, tl |-> cur[t].tl, long |-> FALSE, done |-> PopDone(t),
           res |-> IF PopDone(t) /\ cur[t].res # 0 THEN <<cur[t].res>> ELSE <<>>]
     ELSE [op |-> "none"]]
 H == INSTANCE H_Queue WITH q <- qbar, pend <- pendbar, deque <- Deque
